@@ -79,6 +79,65 @@ pub fn child(nthreads: usize) {
     }
 }
 
+/// calls that fail part-way through: whatever they leave behind must not be observable by the next call
+pub fn poison(kind: usize) {
+    let mut rng = chacha(4242, kind as u64);
+    let a = rrun::random_inst(4, 2, 4, 2, 3, false, &mut rng);
+    let b = rrun::random_inst(4, 1, 4, 2, 5, false, &mut rng);
+    let (sa, sb) = (a.statement(), b.statement());
+    let pa = a.prove(&mut rng).unwrap();
+    let pb = b.prove(&mut rng).unwrap();
+    let mut bytes = pb.to_bytes();
+    let l = bytes.len();
+    let bad = match kind % 6 {
+        0 => {
+            // undecodable point in the last R
+            bytes[l - 32..].copy_from_slice(&[0xff; 32]);
+            rrun::Proof::from_bytes(&bytes).unwrap()
+        },
+        1 => {
+            // one folding round too many
+            let tail = bytes[l - 64..].to_vec();
+            bytes.extend_from_slice(&tail);
+            rrun::Proof::from_bytes(&bytes).unwrap()
+        },
+        2 => {
+            // well-formed but invalid
+            bytes[l - 40] ^= 1;
+            rrun::Proof::from_bytes(&bytes).unwrap_or(pb.clone())
+        },
+        3 => {
+            // undecodable A
+            let off = 1 + 32 * 2;
+            bytes[off..off + 32].copy_from_slice(&[0xff; 32]);
+            rrun::Proof::from_bytes(&bytes).unwrap()
+        },
+        4 => {
+            // identity A1
+            let off = 1 + 32 * 3;
+            bytes[off..off + 32].copy_from_slice(&[0u8; 32]);
+            rrun::Proof::from_bytes(&bytes).unwrap()
+        },
+        _ => pb.clone(),
+    };
+    for action in rrun::ACTIONS {
+        // the failing member after a valid one, and first
+        let _ = rrun::Proof::verify_batch(&mut [a.transcript(), b.transcript()], &[sa.clone(), sb.clone()], &[pa.clone(), bad.clone()], action);
+        if kind % 2 == 0 {
+            let _ = rrun::Proof::verify_batch(&mut [b.transcript(), a.transcript()], &[sb.clone(), sa.clone()], &[bad.clone(), pa.clone()], action);
+        }
+    }
+    if kind % 6 == 5 {
+        // failing prover, mismatched lengths, inconsistent batch
+        let mut a2 = a.clone();
+        a2.values[0] = 999;
+        let _ = rrun::Proof::prove_with_rng(&mut a2.transcript(), &sa, &a2.witness(), &mut rng);
+        let _ = rrun::Proof::verify_batch(&mut [a.transcript()], &[sa.clone(), sb.clone()], &[pa.clone()], VerifyAction::VerifyOnly);
+        let c = rrun::random_inst(8, 1, 1, 2, 5, false, &mut rng);
+        let _ = rrun::Proof::verify_batch(&mut [a.transcript(), c.transcript()], &[sa.clone(), c.statement()], &[pa.clone(), pb.clone()], VerifyAction::VerifyOnly);
+    }
+}
+
 pub fn c18(opts: &Opts, out: &mut Out) {
     let ncalls = 6usize;
     let reference: Vec<String> = (0..ncalls).map(call).collect();
@@ -97,7 +156,9 @@ pub fn c18(opts: &Opts, out: &mut Out) {
             let _ = rrun::params(2, 1 << (pos % 3), 1 + pos % 6);
             let _ = rrun::Proof::from_bytes(&[1, 2, 3]);
             let _ = Scalar::from(pos as u64);
-            out.oracle("C18:history-independent", call(c) == reference[c], &format!("history {} {:?} position {}", hnum, hist, pos), "result depends on the calls that preceded it");
+            let pk = (rng.next_u32() % 6) as usize;
+            poison(pk);
+            out.oracle("C18:history-independent", call(c) == reference[c], &format!("history {} {:?} position {} after-failing-call-kind {}", hnum, hist, pos, pk), "result depends on the calls that preceded it");
         }
     }
     // (c) threads sharing parameter objects (clones share the Arc'd tables)
@@ -111,6 +172,9 @@ pub fn c18(opts: &Opts, out: &mut Out) {
                 std::thread::spawn(move || {
                     b.wait();
                     let c = (i + round) % 6;
+                    if i % 3 == 0 {
+                        poison(i + round);
+                    }
                     (c, call(c))
                 })
             })
